@@ -2306,9 +2306,35 @@ def m_string_method(eng, n, st, func, want):
                 for tr, s2 in eng.compare('==', ln, lin(0), s1, n, func):
                     out.append((lin(1 if tr else 0), s2))
         elif short in ('c_str', 'data'):
-            eng.string_len(s1, ov.name)
-            s1.fields[(ov.name + '.data', 'strlen')] = eng.string_len(s1, ov.name)
+            ln = eng.string_len(s1, ov.name)
+            # the C string ends at the FIRST NUL byte: a std::string may carry embedded NUL bytes, so strlen( c_str())
+            # is some value in [0, length()] (one symbol per string object, so that repeated calls agree)
+            key = (ov.name + '.data', 'strlen')
+            cl = s1.fields.get((ov.name, 'cstrlen'))
+            if cl is None or s1.fields.get((ov.name, 'cstrlen.of')) is not ln:
+                cl = eng.fresh('strlen(%s.c_str())' % ov.name, s1, 'unsigned long')
+                s1.assume(ge(cl, 0), le(cl, ln))
+                s1.fields[(ov.name, 'cstrlen')] = cl
+                s1.fields[(ov.name, 'cstrlen.of')] = ln
+            s1.fields[key] = cl
             out.append((Ptr(ov.name + '.data', 0), s1))
+        elif short == 'copy' and len(args) >= 2:
+            # size_type copy( char* dest, size_type count, size_type pos = 0): writes min( count, length - pos) bytes
+            ln = eng.string_len(s1, ov.name)
+            for vals, s2 in _ev_all(eng, args[:3], s1, func):
+                d, cnt = vals[0], vals[1]
+                pos = vals[2] if len(vals) > 2 and isinstance(vals[2], Lin) else lin(0)
+                if not isinstance(cnt, Lin):
+                    eng.obligations.append(Obligation(eng.root, 'bounds', 'std::string::copy with untracked length',
+                                                      False, func.loc(n), ''))
+                    out.append((UNKNOWN, s2))
+                    continue
+                for small, s3 in eng.compare('<=', cnt, ln - pos, s2, n, func):
+                    num = cnt if small else ln - pos
+                    eng.access(s3, d, num, 'std::string::copy destination', n, func, write=True)
+                    if isinstance(d, Ptr):
+                        eng.log_write(s3, ('copy', d, Ptr(ov.name + '.data', pos), num))
+                    out.append((num, s3))
         elif short in ('operator[]', 'at') and len(args) == 1:
             ln = eng.string_len(s1, ov.name)
             for (k,), s2 in _ev_all(eng, args[:1], s1, func):
